@@ -68,8 +68,6 @@ def opt_raw(pbc, x, slot):
         return '-'
     if isinstance(x, pbc.AbstractDimension):
         return str(f2b(x.raw_value))
-    if not x and slot == 'scale':
-        return '-'
     return str(f2b(getattr(pbc.PreferredUnits, 'distance' if slot == 'scale' else slot)(x).raw_value))
 
 
